@@ -21,6 +21,7 @@ import (
 	"fmt"
 	"go/ast"
 	"go/token"
+	"os"
 	"regexp"
 	"strings"
 )
@@ -213,13 +214,42 @@ func (c *lessCtx) extract(body *ast.BlockStmt) ([]keyField, bool) {
 }
 
 // nthSortSlice returns the n-th `sort.Slice(x, func(i, j int) bool {...})` call inside fd.
+// isSortSliceCall: sort.Slice(x, less) or sort.SliceStable(x, less) (the order of distinct keys is the same).
+func isSortSliceCall(ce *ast.CallExpr) bool {
+	n := selName(ce.Fun)
+	return (n == "sort.Slice" || n == "sort.SliceStable") && len(ce.Args) == 2
+}
+
+// nthSortCall returns the n-th sort.Slice / sort.SliceStable call with a function literal inside fd.
+func nthSortCall(fd *ast.FuncDecl, n int) (*ast.CallExpr, *ast.FuncLit) {
+	k := 0
+	var call *ast.CallExpr
+	var lit *ast.FuncLit
+	ast.Inspect(fd.Body, func(nd ast.Node) bool {
+		ce, ok := nd.(*ast.CallExpr)
+		if !ok || !isSortSliceCall(ce) {
+			return true
+		}
+		fl, ok := ce.Args[1].(*ast.FuncLit)
+		if !ok {
+			return true
+		}
+		if k == n && lit == nil {
+			call, lit = ce, fl
+		}
+		k++
+		return true
+	})
+	return call, lit
+}
+
 func nthSortSlice(p *pkgInfo, fd *ast.FuncDecl, n int) (*ast.FuncLit, string, string) {
 	k := 0
 	var lit *ast.FuncLit
 	var aTok, bTok string
 	ast.Inspect(fd.Body, func(nd ast.Node) bool {
 		ce, ok := nd.(*ast.CallExpr)
-		if !ok || selName(ce.Fun) != "sort.Slice" || len(ce.Args) != 2 {
+		if !ok || !isSortSliceCall(ce) {
 			return true
 		}
 		fl, ok := ce.Args[1].(*ast.FuncLit)
@@ -250,8 +280,9 @@ type sortSite struct {
 	fn              string
 	nth             int // which sort.Slice inside fn; -1: closure assigned to `closure`; -2: fn itself is the less function
 	closure         string
-	aTok, bTok      string         // for nth == -2
-	fields          map[string]int // normalised field text -> field index of the model's item
+	aTok, bTok      string            // for nth == -2
+	fields          map[string]int    // normalised field text -> field index of the model's item
+	kinds           map[string]string // normalised field text -> how to build values for it (semantic reading, gen_det_eval); nil: syntactic only
 }
 
 func emitKey(b *strings.Builder, name string, keys []keyField, fields map[string]int, site string) {
@@ -345,35 +376,46 @@ func init() {
 		}
 
 		fnFields := map[string]int{"§A.Metrics.Complexity": 0, "§A.FilePath": 1, "§A.StartLine": 2, "§A.Name": 3, "riskOrder[§A.RiskLevel]": 4}
+		fnKinds := map[string]string{"§A.Metrics.Complexity": "int", "§A.FilePath": "str", "§A.StartLine": "int", "§A.Name": "str", "riskOrder[§A.RiskLevel]": "keys:riskOrder"}
+		clsKinds := map[string]string{"§A.Metrics.CouplingCount": "int", "§A.FilePath": "str", "§A.StartLine": "int", "§A.Name": "str", "riskOrder[§A.RiskLevel]": "keys:riskOrder"}
 		clsFields := map[string]int{"§A.Metrics.CouplingCount": 0, "§A.FilePath": 1, "§A.StartLine": 2, "§A.Name": 3, "riskOrder[§A.RiskLevel]": 4}
 		sites := []sortSite{
-			{name: "complexity_by_complexity", dir: "service", file: "complexity_service.go", recv: "ComplexityServiceImpl", fn: "sortByComplexity", fields: fnFields},
-			{name: "complexity_by_name", dir: "service", file: "complexity_service.go", recv: "ComplexityServiceImpl", fn: "sortByName", fields: fnFields},
-			{name: "complexity_by_risk", dir: "service", file: "complexity_service.go", recv: "ComplexityServiceImpl", fn: "sortByRisk", fields: fnFields},
-			{name: "cbo_by_coupling", dir: "service", file: "cbo_service.go", recv: "CBOServiceImpl", fn: "sortClasses", nth: 0, fields: clsFields},
-			{name: "cbo_by_name", dir: "service", file: "cbo_service.go", recv: "CBOServiceImpl", fn: "sortClasses", nth: 1, fields: clsFields},
-			{name: "cbo_by_risk", dir: "service", file: "cbo_service.go", recv: "CBOServiceImpl", fn: "sortClasses", nth: 2, fields: clsFields},
-			{name: "cbo_by_location", dir: "service", file: "cbo_service.go", recv: "CBOServiceImpl", fn: "sortClasses", nth: 3, fields: clsFields},
-			{name: "cbo_default", dir: "service", file: "cbo_service.go", recv: "CBOServiceImpl", fn: "sortClasses", nth: 4, fields: clsFields},
-			{name: "cbo_top", dir: "service", file: "cbo_service.go", recv: "CBOServiceImpl", fn: "generateSummary", fields: clsFields},
+			{name: "complexity_by_complexity", dir: "service", file: "complexity_service.go", recv: "ComplexityServiceImpl", fn: "sortByComplexity", fields: fnFields, kinds: fnKinds},
+			{name: "complexity_by_name", dir: "service", file: "complexity_service.go", recv: "ComplexityServiceImpl", fn: "sortByName", fields: fnFields, kinds: fnKinds},
+			{name: "complexity_by_risk", dir: "service", file: "complexity_service.go", recv: "ComplexityServiceImpl", fn: "sortByRisk", fields: fnFields, kinds: fnKinds},
+			{name: "cbo_by_coupling", dir: "service", file: "cbo_service.go", recv: "CBOServiceImpl", fn: "sortClasses", nth: 0, fields: clsFields, kinds: clsKinds},
+			{name: "cbo_by_name", dir: "service", file: "cbo_service.go", recv: "CBOServiceImpl", fn: "sortClasses", nth: 1, fields: clsFields, kinds: clsKinds},
+			{name: "cbo_by_risk", dir: "service", file: "cbo_service.go", recv: "CBOServiceImpl", fn: "sortClasses", nth: 2, fields: clsFields, kinds: clsKinds},
+			{name: "cbo_by_location", dir: "service", file: "cbo_service.go", recv: "CBOServiceImpl", fn: "sortClasses", nth: 3, fields: clsFields, kinds: clsKinds},
+			{name: "cbo_default", dir: "service", file: "cbo_service.go", recv: "CBOServiceImpl", fn: "sortClasses", nth: 4, fields: clsFields, kinds: clsKinds},
+			{name: "cbo_top", dir: "service", file: "cbo_service.go", recv: "CBOServiceImpl", fn: "generateSummary", fields: clsFields, kinds: clsKinds},
 			{name: "dead_findings", dir: "internal/analyzer", file: "dead_code.go", recv: "DeadCodeDetector", fn: "Detect",
-				fields: map[string]int{"§A.StartLine": 0, "§A.EndLine": 1, "§A.BlockID": 2}},
+				fields: map[string]int{"§A.StartLine": 0, "§A.EndLine": 1, "§A.BlockID": 2},
+				kinds:  map[string]string{"§A.StartLine": "int", "§A.EndLine": "int", "§A.BlockID": "str"}},
 			{name: "dead_closer", dir: "internal/analyzer", file: "dead_code.go", recv: "DeadCodeDetector", fn: "findTerminatorInPredecessors", nth: -1, closure: "closer",
-				fields: map[string]int{"dcd.getBlockEndLine(§A)": 0, "§A.ID": 1}},
+				fields: map[string]int{"dcd.getBlockEndLine(§A)": 0, "§A.ID": 1},
+				kinds:  map[string]string{"dcd.getBlockEndLine(§A)": "blockend", "§A.ID": "str"}},
 			{name: "cycles", dir: "internal/analyzer", file: "circular_detector.go", recv: "CircularDependencyDetector", fn: "processComponents",
-				fields: map[string]int{"cdd.severityOrder(§A.Severity)": 0, "§A.Size": 1, "§A.Modules[0]": 2}},
+				fields: map[string]int{"cdd.severityOrder(§A.Severity)": 0, "§A.Size": 1, "§A.Modules[0]": 2},
+				kinds:  map[string]string{"cdd.severityOrder(§A.Severity)": "consts:CycleSeverity", "§A.Size": "int", "§A.Modules[0]": "str"}},
 			{name: "refactor_priority", dir: "internal/analyzer", file: "coupling_metrics.go", recv: "CouplingMetricsCalculator", fn: "identifyRefactoringPriorities",
-				fields: map[string]int{"§A.priority": 0, "§A.module": 1}},
+				fields: map[string]int{"§A.priority": 0, "§A.module": 1},
+				kinds:  map[string]string{"§A.priority": "float", "§A.module": "str"}},
 			{name: "chains", dir: "service", file: "system_analysis_service.go", recv: "SystemAnalysisServiceImpl", fn: "findLongestChains",
-				fields: map[string]int{"§A.Length": 0, "dependencyPathLess(§A.Path)": 1}},
+				fields: map[string]int{"§A.Length": 0, "dependencyPathLess(§A.Path)": 1},
+				kinds:  map[string]string{"§A.Length": "int", "dependencyPathLess(§A.Path)": "strs"}},
 			{name: "clone_pairs", dir: "internal/analyzer", file: "clone_detector.go", recv: "CloneDetector", fn: "limitAndSortClonePairs",
-				fields: map[string]int{"§A.Similarity": 0, "fragmentLess(§A.Fragment1)": 1, "fragmentLess(§A.Fragment2)": 2}},
+				fields: map[string]int{"§A.Similarity": 0, "fragmentLess(§A.Fragment1)": 1, "fragmentLess(§A.Fragment2)": 2},
+				kinds:  map[string]string{"§A.Similarity": "float", "fragmentLess(§A.Fragment1)": "frag", "fragmentLess(§A.Fragment2)": "frag"}},
 			{name: "groups_connected", dir: "internal/analyzer", file: "connected_grouping.go", recv: "ConnectedGrouping", fn: "GroupClones", nth: 1,
-				fields: map[string]int{"§A.Similarity": 0, "§A.Size": 1, "fragmentLess(§A.Fragments[0])": 2}},
+				fields: map[string]int{"§A.Similarity": 0, "§A.Size": 1, "fragmentLess(§A.Fragments[0])": 2},
+				kinds:  map[string]string{"§A.Similarity": "float", "§A.Size": "int", "fragmentLess(§A.Fragments[0])": "frag"}},
 			{name: "groups_centroid", dir: "internal/analyzer", file: "centroid_grouping.go", recv: "CentroidGrouping", fn: "GroupClones", nth: 1,
-				fields: map[string]int{"§A.Similarity": 0, "§A.Size": 1, "fragmentLess(§A.Fragments[0])": 2}},
+				fields: map[string]int{"§A.Similarity": 0, "§A.Size": 1, "fragmentLess(§A.Fragments[0])": 2},
+				kinds:  map[string]string{"§A.Similarity": "float", "§A.Size": "int", "fragmentLess(§A.Fragments[0])": "frag"}},
 			{name: "fragment_less", dir: "internal/analyzer", file: "star_medoid_grouping.go", fn: "fragmentLess", nth: -2, aTok: "a", bTok: "b",
-				fields: map[string]int{"§A.Location.FilePath": 0, "§A.Location.StartLine": 1, "§A.Location.StartCol": 2, "§A.Location.EndLine": 3, "§A.Location.EndCol": 4}},
+				fields: map[string]int{"§A.Location.FilePath": 0, "§A.Location.StartLine": 1, "§A.Location.StartCol": 2, "§A.Location.EndLine": 3, "§A.Location.EndCol": 4},
+				kinds:  map[string]string{"§A.Location.FilePath": "str", "§A.Location.StartLine": "int", "§A.Location.StartCol": "int", "§A.Location.EndLine": "int", "§A.Location.EndCol": "int"}},
 		}
 		for _, s := range sites {
 			p := get(s.dir)
@@ -383,6 +425,20 @@ func init() {
 				continue
 			}
 			recordDigest(p, s.file, s.recv, s.fn)
+			// semantic reading first (det_eval.go); the syntactic reader below only where that route cannot be set up
+			if s.kinds != nil {
+				keys, err := semanticSite(p, s, fd)
+				if err == nil {
+					emitKey(&b, s.name, keys, s.fields, s.name)
+					continue
+				}
+				if _, un := err.(*errUnavailable); !un {
+					continue // reported
+				}
+				if os.Getenv("VERIFGEN_DEBUG") != "" {
+					fmt.Fprintf(os.Stderr, "det %s: semantic route unavailable: %v\n", s.name, err)
+				}
+			}
 			var body *ast.BlockStmt
 			ctx := &lessCtx{p: p, site: s.name}
 			switch s.nth {
@@ -519,7 +575,7 @@ func init() {
 				ast.Inspect(fd.Body, func(nd ast.Node) bool {
 					if ce, isCall := nd.(*ast.CallExpr); isCall {
 						switch selName(ce.Fun) {
-						case "sort.Slice":
+						case "sort.Slice", "sort.SliceStable":
 							if ce.Pos() > lastSort {
 								lastSort = ce.Pos()
 							}
@@ -570,24 +626,59 @@ func init() {
 				}
 			}
 		}
-		// the line window of findTerminatorInPredecessors: (blockStartLine-otherEndLine) <= N
+		// the line window of findTerminatorInPredecessors (a terminating block that ends g lines before the dead block starts is
+		// taken as its reason for 1 <= g <= N): read by running the function on a two-block CFG, terminator lookup stubbed
 		{
 			pa := get("internal/analyzer")
-			found := false
-			if fd := findFunc(pa, "dead_code.go", "DeadCodeDetector", "findTerminatorInPredecessors"); fd != nil {
-				ast.Inspect(fd.Body, func(nd ast.Node) bool {
-					be, ok := nd.(*ast.BinaryExpr)
-					if ok && be.Op == token.LEQ && !found && strings.Contains(src(pa, be.X), "blockStartLine") && strings.Contains(src(pa, be.X), "otherEndLine") {
-						if v, ok := intLit(be.Y); ok {
-							fmt.Fprintf(&b, "Definition dead_window : Z := %d%%Z.\n", v)
-							found = true
+			fd := findFunc(pa, "dead_code.go", "DeadCodeDetector", "findTerminatorInPredecessors")
+			if fd == nil {
+				fail("det: findTerminatorInPredecessors not found")
+			} else {
+				in := newInterp(pa)
+				in.Extern = func(c *CallCtx) ([]Value, bool) {
+					if c.Name == "dcd.blockTerminatorReason" && c.NArgs() == 1 {
+						if blk, _ := c.Arg(0).(*Struct); blk != nil {
+							if r, ok := blk.F["reason__"]; ok {
+								return []Value{r}, true
+							}
 						}
+						return []Value{""}, true
 					}
-					return true
-				})
-			}
-			if !found {
-				fail("det: line window of findTerminatorInPredecessors not found")
+					return nil, false
+				}
+				block := func(id string, start, end int64, reason string) *Struct {
+					return mkStruct("BasicBlock", "ID", id, "reason__", reason, "Predecessors", nil,
+						"Statements", mkSlice(mkStruct("Node", "Location", mkStruct("Location", "StartLine", start, "EndLine", end))))
+				}
+				const start = 100
+				var gaps []int64
+				var vals []string
+				bad := false
+				for g := int64(-3); g <= 60 && !bad; g++ {
+					dead := block("dead", start, start+2, "")
+					other := block("other", start-g-1, start-g, "TERMINATOR")
+					dcd := mkStruct("DeadCodeDetector", "cfg", mkStruct("CFG", "Blocks", &Map{M: map[interface{}]Value{"dead": dead, "other": other}}))
+					vs, err := in.CallFunc(pa, fd, dcd, dead)
+					if err != nil || len(vs) != 2 {
+						fail("det: findTerminatorInPredecessors cannot be evaluated: %v", err)
+						bad = true
+						break
+					}
+					gaps = append(gaps, g)
+					if vs[0] == "TERMINATOR" {
+						vals = append(vals, "in")
+					} else {
+						vals = append(vals, "out")
+					}
+				}
+				if !bad {
+					segs := stepSegments(gaps, vals)
+					if len(segs) == 3 && segs[0].val == "out" && segs[1].val == "in" && segs[1].from == 1 && segs[2].val == "out" {
+						fmt.Fprintf(&b, "Definition dead_window : Z := %d%%Z.\n", segs[2].from-1)
+					} else {
+						fail("det: the line window of findTerminatorInPredecessors is not `1 <= gap <= N`")
+					}
+				}
 			}
 		}
 		recordDigest(get("service"), "system_analysis_service.go", "", "dependencyPathLess")
